@@ -296,9 +296,9 @@ func c08Plan(c *Ctx, planNo int, T time.Duration) {
 	for _, ct := range ctrls {
 		if ct.path == "tcp-refused" {
 			// (never the bind port itself: a TCP connect from 127.0.0.1:P to 127.0.0.1:P connects to itself and reads its own request back)
-			refused := freePort("127.0.0.1")
+			refused := unlistenedPort("127.0.0.1")
 			for try := 0; try < 20 && strings.HasSuffix(cfg.Bind, fmt.Sprintf(":%d", refused)); try++ {
-				refused = freePort("127.0.0.1")
+				refused = unlistenedPort("127.0.0.1")
 			}
 			cfg.Devices = append(cfg.Devices, DevCfg{ID: ct.serial, Addr: fmt.Sprintf("127.0.0.1:%d", refused), Proto: "tcp", NewDevice: true})
 		} else if ct.path != "broadcast" {
